@@ -1,6 +1,6 @@
 -------------------------- MODULE C02_MCSampled --------------------------
 EXTENDS C02_Sampled, Json
-St == << nsent, Len(wire), closed, made, np, Len(delivered), eof, under, rg, eofd >>
+St == << nsent, Len(wire), closed, made, np, Len(delivered), eof, under, rg, eofd, nglitch >>
 EmitEdge == PrintT(<<"VFEDGE", ToJson([s |-> St, op |-> op', t |-> St'])>>)
 Conf == [peek |-> PeekSize, maxsent |-> MaxSent, bufs |-> Bufs, shorts |-> Shorts, glitches |-> Glitches]
 MCInit == Init /\ PrintT(<<"VFINIT", ToJson(St)>>) /\ PrintT(<<"VFCONF", ToJson(Conf)>>)
